@@ -57,7 +57,7 @@ ALIAS = {"EXA": "iterate-exact", "EXP": "iterate-expanded", "TRN": "truncated"}
 
 def budget(tier):
     if tier == "quick":
-        return dict(max_examples=200, shards=8, wall_s=90, shrink_s=30)
+        return dict(max_examples=200, shards=8, wall_s=90, shrink_s=15)
     return dict(max_examples=3000, shards=16, wall_s=600, shrink_s=120)
 
 
